@@ -5,6 +5,12 @@ from concurrent.futures import ThreadPoolExecutor
 
 VERIF = os.path.dirname(os.path.dirname(os.path.abspath(__file__)))
 PROBES = os.path.join(VERIF, "probes")
+TARGET_ROOT = os.path.join(VERIF, "target")
+if os.environ.get("FIV_REPO"):
+    import hashlib
+    _alt = os.path.join(os.environ.get("FIV_ALT_DIR", "/tmp"), "fiv-alt-" + hashlib.sha1(os.environ["FIV_REPO"].encode()).hexdigest()[:10])
+    PROBES = os.path.join(_alt, "probes")
+    TARGET_ROOT = os.path.join(_alt, "target")
 GUARD = "--cfg futures_intrusive_verif"
 TRAIT_WORDS = ("`Send`", "`Sync`", "`Unpin`", "cannot be sent between threads", "cannot be shared between threads", "cannot be unpinned")
 
@@ -13,7 +19,7 @@ def env(target):
     e = dict(os.environ)
     e["CARGO_NET_OFFLINE"] = "true"
     e["RUSTFLAGS"] = GUARD
-    e["CARGO_TARGET_DIR"] = os.path.join(VERIF, "target", target)
+    e["CARGO_TARGET_DIR"] = os.path.join(TARGET_ROOT, target)
     return e
 
 
